@@ -222,7 +222,9 @@ func c13Reader(c *Ctx, gd *Module) {
 	ok404 := false
 	for _, cs := range callsIn(rm, "godev/internal/content.Error") {
 		if n, isC := intConst(cs.Common().Args[1]); isC && n == 404 {
-			ok404 = hasFact(factsAt(cs), callResultIs("errors.Is", true, func(a []ssa.Value, _ *ssa.Call) bool { return strings.HasSuffix(describe(a[1]), "storage.ErrObjectNotExist") }))
+			ok404 = hasFact(factsAt(cs), callResultIs("errors.Is", true, func(a []ssa.Value, _ *ssa.Call) bool {
+				return strings.HasSuffix(describe(a[1]), "storage.ErrObjectNotExist")
+			}))
 		}
 	}
 	r.Check("C13.every-report-counted", "readMergedReports/missing day is 'not found'", gd.Pos(rm.Pos()), ok404, "ErrObjectNotExist must map to content.Error(…, 404), never to an empty list")
@@ -430,8 +432,22 @@ func c13Chart(c *Ctx, gd *Module) {
 	okID := false
 	for _, cs := range callsIn(gr, "(godev/cmd/worker.data).writeCount") {
 		a := cs.Common().Args
-		idd := describe(a[5])
-		if (strings.HasPrefix(idd, "conv<godev/cmd/worker.reportID>(") && strings.HasSuffix(idd, ".X)")) || (strings.HasSuffix(idd, ".X") && strings.HasPrefix(idd, "alloc:r#")) {
+		// reportID(r.X) with r the element of the range over the reports parameter
+		idv := strip(a[5])
+		if cv, ok := idv.(*ssa.Convert); ok {
+			idv = strip(cv.X)
+		}
+		base, fld, isField := fieldLoad(idv)
+		src := ""
+		if isField {
+			src = describe(base)
+			if al, ok := strip(base).(*ssa.Alloc); ok {
+				if sv := singleStore(al); sv != nil {
+					src = describe(sv)
+				}
+			}
+		}
+		if isField && fld == "X" && strings.HasPrefix(src, "param:reports[") {
 			okID = true
 		} else {
 			okID = false
